@@ -12,7 +12,7 @@ pub fn prop() -> Prop {
         rule: "(8 base expressions and 3 big ones: nesting depth 33, a 300-character literal, 130 arguments) paths ending in a separator (.a. / .a.b# / (len .a.)) in every position; every foreign output option next to every option of the style's own group; every corrupted configuration alone and next to each of 8 valid neighbour options (--take 0/1, --skip, --unique, --merge, --only-objects-and-arrays, a regex cache, --on-error=panic); valid configurations = 7 option positions (--select, --filter, --split-by, --group-by, --sort-by, --set variable, --set macro) x 8 base expressions x 6 output styles (+ every pure function with a canonical argument list in every position, json style); corruptions (one fault each): truncation at EVERY byte offset that lies inside parentheses or a string, one '(' or ')' too many, unknown function name, arity min-1 / max+1 for every function, trailing garbage of 4 kinds, bad sort directions, malformed --set (no '=', empty name, empty macro name, duplicate, empty value), output options of another style, csv without selections / with grouping / with merge, --headers without selections, invalid enum and numeric option values; non-trivial = the uncorrupted configuration runs Ok and prints >= 1 byte; distinct by construction; every arrangement of <=4 --set options over {a=1, a=2, @a=1, @a=.x, b=1} that binds the same variable or the same macro twice; references /K/ and /Full name/ to a selected name cut anywhere before their closing slash (bare, inside a call, last argument, pipe stage) in 8 option positions; unparsable expressions given as a separate word behind every long, second long and short name of the five expression options, with the input in files named before or after the option, under three --on-error policies",
         explanation: "each corrupted configuration is executed on a non-empty input; oracle: Err (or clap usage error), zero bytes on stdout, the stdin factory is never invoked",
         assumptions: COMMON_ASSUMPTIONS.to_vec(),
-        guards: vec!["bad-expression-as-a-separate-word-after-file-names", "truncated-selected-name-reference", "duplicate-set-with-another-binding-in-between", "dangling-path-separator", "with-a-neighbour-option", "truncation", "arity", "trailing-garbage", "set-malformed", "style-mismatch", "csv-without-selection", "valid-config-prints"],
+        guards: vec!["trailing-blank-that-is-not-white-space", "bad-expression-as-a-separate-word-after-file-names", "truncated-selected-name-reference", "duplicate-set-with-another-binding-in-between", "dangling-path-separator", "with-a-neighbour-option", "truncation", "arity", "trailing-garbage", "set-malformed", "style-mismatch", "csv-without-selection", "valid-config-prints"],
         budget_s: (100, 900),
         single_worker: false,
         run,
@@ -252,7 +252,15 @@ fn run(ctx: &mut Ctx) {
                     judge(ctx, "unknown-function", &format!("{where_} {unk}"), with_expr(pos, &unk, style), nt);
                 }
                 // trailing garbage after a complete expression
-                for g in [" garbage", " 1", " )", " (len .a)"] {
+                for g in [" garbage", " 1", " )", " (len .a)", "\u{0b}", "\u{0c}", "\u{a0}", "\u{2028}", "\u{85}", "\u{3000}", " \u{a0}"] {
+                    // blanks that are not the grammar's white space (space, tab, LF, CR) are garbage like any other byte;
+                    // --sort-by and --set strip them with the rest of the surrounding white space, so they are tried elsewhere
+                    if !g.is_ascii() || g == "\u{0b}" || g == "\u{0c}" {
+                        if ["sort", "setvar", "setmacro"].contains(pos) {
+                            continue;
+                        }
+                        ctx.guard("trailing-blank-that-is-not-white-space");
+                    }
                     ctx.guard("trailing-garbage");
                     if *pos == "select" {
                         let mut a = with_expr(pos, base, style);
